@@ -1,7 +1,7 @@
 """C05 — stream-level check (see DESIGN.md section 6)."""
 from lib import kv
 PID = "C05"
-LEVEL = "exploration"
+LEVEL = "proof"
 CMD = "c05"
 RULE = 'valid multi-block streams (2..12 blocks, partial last batch, with/without hint) decoded with jobs {1,2,3,4,5,8,9..64} under perturbed schedules: identical bytes; then one block damaged (payload bit flip located by the independent container parser) at every block position, decoded with jobs {1..4, 5..9}, reading on after the error: an error must be reported, the bytes returned must be a prefix of the original that stops before the failed block, every later Read must return (0, error). Non-trivial = stream with >= 2 blocks.'
 
